@@ -30,6 +30,7 @@ NCPU = os.cpu_count() or 4
 
 FORBIDDEN = re.compile(
     r"\b(Admitted|admit|Axiom|Axioms|Parameter|Parameters|Conjecture|Conjectures|Hypothesis|Hypotheses|Variable|Variables)\b"
+    r"|\bContext\b|Declare\s+Module|native_compute|native_cast_no_check"
     r"|Unset\s+Guard|bypass_check|type-in-type|impredicative-set|Admit\s+Obligations|Unset\s+Positivity|Unset\s+Universe"
 )
 
@@ -141,7 +142,9 @@ def scan_forbidden() -> list[str]:
             continue
         text = p.read_text()
         # strip comments (non-nested is enough for this development: we never nest them)
-        stripped = re.sub(r"\(\*.*?\*\)", lambda m: " " * len(m.group()), text, flags=re.S)
+        # string literals first (a "(*" inside a string would otherwise open a comment that hides real code)
+        text = re.sub(r'"[^"\n]*"', lambda m: '"' + " " * (len(m.group()) - 2) + '"', text)
+        stripped = re.sub(r"\(\*.*?\*\)", lambda m: re.sub(r"[^\n]", " ", m.group()), text, flags=re.S)
         in_section = 0
         for i, line in enumerate(stripped.splitlines(), 1):
             if re.match(r"\s*Section\b", line):
@@ -150,7 +153,7 @@ def scan_forbidden() -> list[str]:
                 in_section -= 1
             for m in FORBIDDEN.finditer(line):
                 w = m.group()
-                if w in ("Variable", "Variables", "Hypothesis", "Hypotheses") and in_section:
+                if w in ("Variable", "Variables", "Hypothesis", "Hypotheses", "Context") and in_section:
                     continue
                 hits.append(f"{p.relative_to(COQ)}:{i}: {w}")
     return hits
